@@ -231,6 +231,11 @@ func c09Templates() []c09Tpl {
 		{"repeat-wrap-string-4", `len("abcd" * (1 << 62))`, "mem", 100, 3000},
 		{"repeat-wrap-string-16", `len("0123456789abcdef" * (1 << 60))`, "mem", 100, 3000},
 		{"repeat-wrap-array-2", `len([1, 2] * 9223372036854775807)`, "mem", 100, 3000},
+		// the count alone fits the budget, length x count does not
+		{"repeat-multi-500", `a = [0] * 500; b = a * 100000; len(b)`, "mem", 100, 5000},
+		{"repeat-multi-16", `a = [0, 1, 2, 3, 4, 5, 6, 7, 8, 9, 10, 11, 12, 13, 14, 15]; b = a * 3000000; len(b)`, "mem", 100, 5000},
+		{"repeat-multi-string", `s = "0123456789" * 100; t = s * 1000000; len(t)`, "mem", 100, 5000},
+		{"repeat-multi-twice", `a = ([0] * 4000) * 4000; b = a * 10; len(b)`, "mem", 100, 5000},
 		{"repeat-string-big-print", `println("x" * 50000000)`, "", 0, 0},
 		{"join-big", `a = ["xxxxxxxxxxxxxxxx"] * 10000000; len(join(a, ","))`, "", 0, 0},
 		{"runes-big", `len(runes("x" * 100000000))`, "", 0, 0},
@@ -268,6 +273,14 @@ func c09Templates() []c09Tpl {
 		{"print-buffer", `s = "x" * 1000000; func f() {for true {print(s)}}; f()`, "", 100, 1000},
 		{"unrestricted-run-then-loop", `run("true"); for true {}`, "", 100, 100},
 		{"unrestricted-exec-then-loop", `exec("true"); for true {}`, "", 100, 100},
+		// recursion through nested literals and argument positions under the default depth limit: every level must
+		// count towards the nesting limit that keeps the Go stack bounded
+		{"recdefault-arrays-4", `func f(n) {[[[[f(n + 1)]]]]}; f(0)`, "depth", 0, 3000},
+		{"recdefault-arrays-8", `func f(n) {[[[[[[[[f(n + 1)]]]]]]]]}; f(0)`, "depth", 0, 3000},
+		{"recdefault-args-4", `func id(x) {x}; func f(n) {id(id(id(id(f(n + 1)))))}; f(0)`, "depth", 0, 3000},
+		{"recdefault-maps-4", `func f(n) {{"a": {"b": {"c": {"d": f(n + 1)}}}}}; f(0)`, "depth", 0, 3000},
+		{"recdefault-mixed", `func g(n) {[f(n + 1), 1]}; func f(n) {{"k": [g(n + 1)]}}; f(0)`, "depth", 0, 3000},
+		{"recdefault-index", `func f(n) {[[1]][f(n + 1)][0]}; f(0)`, "depth", 0, 3000},
 		{"macro-loop", `m = macro(x) {for true {}}; m(1)`, "", 0, 0},
 		{"macro-rec", `m = macro(x) {func r(n) {r(n + 1)}; r(0)}; m(1)`, "", 0, 0},
 	}
